@@ -8,7 +8,7 @@
       binder binds follows it.  Globals, field names, method names, [...] and the implicit [self]
       of [function t:m()] are left as they are.
     - [nameless := ren canon_pick []] : the alpha-normaliser.  A binder met with [k] binders in
-      scope (de Bruijn LEVEL [k]) is renamed to the bytes of ["%" ++ decimal k], which no
+      scope (de Bruijn LEVEL [k]) is renamed to [canon k] = '%' followed by the number k, which no
       identifier can be.  Two trees have the same [nameless] image iff they are the same program
       up to a consistent renaming of locals.
     - [fingerprint] : an injective-enough flattening of a tree into [list N], so two trees can be
@@ -403,7 +403,9 @@ End Ren.
 
 (** ---------------------------------------------------------------------------------------
     the alpha-normaliser *)
-Definition canon (k : nat) : name := 37 :: dec_digits (N.of_nat k).
+(** the canonical name of de Bruijn level k: '%' followed by ONE element carrying k itself (names
+    are lists over N; no identifier starts with '%') *)
+Definition canon (k : nat) : name := [37; N.of_nat k].
 Definition is_canon (x : name) : bool := match x with c :: _ => c =? 37 | [] => false end.
 Definition canon_pick (env : renv) (_ : name) : name := canon (List.length env).
 
